@@ -234,3 +234,7 @@ func (r *Result) Summary() string {
 
 // Thorough reports the tier of the run (native replay: taken from the witness).
 func Thorough() bool { return W != nil && W.Thorough }
+
+// Hint suggests a simplifying regime to the engine's search for a concrete counterexample
+// (never used to discharge anything). No-op natively.
+func Hint(cond bool) {}
